@@ -18,13 +18,15 @@ func (c *Ctx) sliceSortOf(elem Sort) Sort {
 	m := mangle(elem)
 	name := "Slice_" + m
 	sliceElem[name] = elem
-	c.decl("sort:"+name, fmt.Sprintf("(declare-datatypes ((%s 0)) (((mkS_%s (soff_%s Int) (slen_%s Int) (sarr_%s (Array Int %s)) (snil_%s Bool)))))", name, m, m, m, m, elem, m))
+	c.decl("sort:"+name, fmt.Sprintf("(declare-datatypes ((%s 0)) (((mkS_%s (slen_%s Int) (sarr_%s (Array Int %s)) (snil_%s Bool)))))", name, m, m, m, elem, m))
 	return name
 }
 
-func sOff(v Val) string { return "(soff_" + v.S[len("Slice_"):] + " " + v.T + ")" }
+// slices always start at index 0 of their array: arithmetic inside select terms makes
+// quantifier triggers unreliable, so re-slicing with a non-zero lower bound copies (see evalSliceExpr)
+func sOff(v Val) string { return "0" }
 func mkSl(s Sort, off, ln, arr, isnil string) string {
-	return "(mkS_" + s[len("Slice_"):] + " " + off + " " + ln + " " + arr + " " + isnil + ")"
+	return "(mkS_" + s[len("Slice_"):] + " " + ln + " " + arr + " " + isnil + ")"
 }
 func sAt(v Val, i string) string {
 	return sel(sArr(v), plus(sOff(v), i))
@@ -84,18 +86,18 @@ func (c *Ctx) zero(t types.Type) Val {
 		el := sliceElemSort(s)
 		v.T = mkSl(s, "0", "0", c.constArr("Int", el, c.zeroOfSort(el, elemType(t))), "true")
 	default:
-		// struct value: a distinguished constant whose fields are zero
-		n := "zero!" + s
-		c.ensureSort(s)
-		c.decl("const:"+n, fmt.Sprintf("(declare-const %s %s)", n, s))
-		v.T = n
-		if stt, ok := t.Underlying().(*types.Struct); ok && !c.seen["zerofields:"+s] {
-			c.seen["zerofields:"+s] = true
+		// struct value: constructor applied to zero fields
+		if stt, ok := t.Underlying().(*types.Struct); ok {
+			var vs []string
 			for i := 0; i < stt.NumFields(); i++ {
-				f := stt.Field(i)
-				fv := c.zero(f.Type())
-				c.decls = append(c.decls, fmt.Sprintf("(assert (= %s %s))", c.fldApp(s, f.Name(), fv.S, n), fv.T))
+				vs = append(vs, c.zero(stt.Field(i).Type()).T)
 			}
+			v.T = mkStruct(s, vs)
+		} else {
+			n := "zero!" + s
+			c.ensureSort(s)
+			c.decl("const:"+n, fmt.Sprintf("(declare-const %s %s)", n, s))
+			v.T = n
 		}
 	}
 	return v
@@ -143,9 +145,17 @@ func (c *Ctx) constArr(k, v Sort, val string) string {
 
 // field accessor on struct values
 func (c *Ctx) fldApp(structSort Sort, field string, fs Sort, v string) string {
-	fn := "fld!" + structSort + "!" + field
-	c.declFun(fn, []Sort{structSort}, fs)
-	return "(" + fn + " " + v + ")"
+	if field == "_" {
+		if u := structTypes[structSort]; u != nil {
+			for i := 0; i < u.NumFields(); i++ {
+				if u.Field(i).Name() == "_" {
+					field = fmt.Sprintf("blank%d", i)
+					break
+				}
+			}
+		}
+	}
+	return "(fld!" + structSort + "!" + field + " " + v + ")"
 }
 
 // havoc produces a fresh value of Go type t with its type facts assumed.
@@ -333,7 +343,11 @@ func (c *Ctx) eval(st *State, e ast.Expr) Val {
 		t := c.typeOf(x.Type)
 		c.addObl(st, "typeassert", c.ordOf(x, "typeassert"), c.hasDynType(iv, t), "type assertion "+types.ExprString(x)+" at "+c.pos(x))
 		st.assume(c.hasDynType(iv, t))
-		return c.unbox(iv, t)
+		uv := c.unbox(iv, t)
+		for _, f := range c.typeFacts(uv) {
+			st.assume(f)
+		}
+		return uv
 	case *ast.FuncLit:
 		return Val{T: c.fresh("funclit", "Int"), S: "Int", GT: c.typeOf(e)}
 	case *ast.KeyValueExpr:
@@ -389,10 +403,22 @@ func (c *Ctx) readVar(st *State, o *types.Var) Val {
 	return v
 }
 
+// named binds a long term to a fresh constant (keeps queries small and readable).
+func (c *Ctx) named(st *State, prefix string, v Val) Val {
+	if len(v.T) < 48 || v.S == "?nil" {
+		return v
+	}
+	n := c.fresh(prefix, v.S)
+	st.assume(eq(n, v.T))
+	v.T = n
+	return v
+}
+
 func (c *Ctx) writeVar(st *State, o *types.Var, v Val) {
 	if o == nil {
 		return
 	}
+	v = c.named(st, "v_"+o.Name(), v)
 	if ref, ok := st.cells[o]; ok {
 		c.cellWrite(st, ref, o.Type(), v)
 		return
@@ -445,13 +471,11 @@ func (c *Ctx) derefRead(st *State, p Val, at ast.Node) Val {
 func (c *Ctx) loadStruct(st *State, ref string, t types.Type) Val {
 	s := c.sortOf(t)
 	stt := t.Underlying().(*types.Struct)
-	v := Val{T: c.fresh("sv", s), S: s, GT: t}
+	var vs []string
 	for i := 0; i < stt.NumFields(); i++ {
-		f := stt.Field(i)
-		fv := c.fieldRead(st, ref, t, "", f)
-		st.assume(eq(c.fldApp(s, f.Name(), fv.S, v.T), fv.T))
+		vs = append(vs, c.fieldRead(st, ref, t, "", stt.Field(i)).T)
 	}
-	return v
+	return Val{T: mkStruct(s, vs), S: s, GT: t}
 }
 
 func (c *Ctx) storeStruct(st *State, ref string, t types.Type, v Val) {
@@ -472,13 +496,11 @@ func (c *Ctx) fieldRead(st *State, ref string, owner types.Type, prefix string, 
 		sub, subOwner, subPrefix := c.subObject(ref, owner, prefix, f)
 		s := c.sortOf(f.Type())
 		stt := f.Type().Underlying().(*types.Struct)
-		v := Val{T: c.fresh("sv", s), S: s, GT: f.Type()}
+		var vs []string
 		for i := 0; i < stt.NumFields(); i++ {
-			g := stt.Field(i)
-			gv := c.fieldRead(st, sub, subOwner, subPrefix, g)
-			st.assume(eq(c.fldApp(s, g.Name(), gv.S, v.T), gv.T))
+			vs = append(vs, c.fieldRead(st, sub, subOwner, subPrefix, stt.Field(i)).T)
 		}
-		return v
+		return Val{T: mkStruct(s, vs), S: s, GT: f.Type()}
 	}
 	key := fieldKey(owner, prefix+f.Name())
 	fs := c.sortOf(f.Type())
@@ -982,7 +1004,16 @@ func (c *Ctx) evalSliceExpr(st *State, x *ast.SliceExpr) Val {
 	goal := and("(<= 0 "+lo+")", "(<= "+lo+" "+hi+")", "(<= "+hi+" "+capT+")")
 	c.addObl(st, "bounds", c.ordOf(x, "bounds"), goal, "slice "+types.ExprString(x)+" in range at "+c.pos(x))
 	st.assume(goal)
-	return Val{T: mkSl(s.S, plus(sOff(s), lo), minus(hi, lo), sArr(s), "false"), S: s.S, GT: c.typeOf(x)}
+	if lo == "0" {
+		return Val{T: mkSl(s.S, "0", hi, sArr(s), "false"), S: s.S, GT: c.typeOf(x)}
+	}
+	// shifted copy: A'[j] = A[j+lo]
+	es := sliceElemSort(s.S)
+	na := c.fresh("shift", arraySort("Int", es))
+	c.nfr++
+	j := fmt.Sprintf("j!q%d", c.nfr)
+	st.assume(fmt.Sprintf("(forall ((%s Int)) (! (= (select %s %s) (select %s (+ %s %s))) :pattern ((select %s %s))))", j, na, j, sArr(s), j, lo, na, j))
+	return Val{T: mkSl(s.S, "0", minus(hi, lo), na, "false"), S: s.S, GT: c.typeOf(x)}
 }
 
 // ---------------------------------------------------------------------------
@@ -1021,16 +1052,16 @@ func (c *Ctx) evalComposite(st *State, x *ast.CompositeLit, addr bool) Val {
 			return Val{T: ref, S: "Int", GT: types.NewPointer(t)}
 		}
 		s := c.sortOf(t)
-		sv := Val{T: c.fresh("lit", s), S: s, GT: t}
+		var vs []string
 		for j := 0; j < u.NumFields(); j++ {
 			f := u.Field(j)
 			v, ok := vals[f.Name()]
 			if !ok {
 				v = c.zero(f.Type())
 			}
-			st.assume(eq(c.fldApp(s, f.Name(), v.S, sv.T), v.T))
+			vs = append(vs, v.T)
 		}
-		return sv
+		return Val{T: mkStruct(s, vs), S: s, GT: t}
 	case *types.Slice, *types.Array:
 		et := elemType(t)
 		s := c.sortOf(t)
